@@ -364,12 +364,15 @@ def placeholder_pool():
     def f9(shape, name: str = None): return np.zeros(shape)     # noqa: E704
     def f10(shape, name=1): return np.zeros(shape)              # noqa: E704
     def f11(shape, name=1.0): return np.zeros(shape)            # noqa: E704
+    def f14(shape, table=np.arange(3)): return np.zeros(shape)          # noqa: E704
+    def f15(shape, table=np.arange(3)): return np.zeros(shape)          # noqa: E704
+    def f16(shape, table=np.arange(4)): return np.zeros(shape)          # noqa: E704
     def f12(shape, arg_index=None, name=None): return np.zeros(shape)   # noqa: E704
     def f13(shape, name=None, arg_index=None): return np.zeros(shape)   # noqa: E704
     pool = [Foreign(()), Foreign((2,)), Foreign((2, 3)), Foreign((3, 2)), Foreign((2, 3)),
             np.zeros(()), np.zeros((2,)), np.zeros((2, 3)), np.ones((2, 3), "int32"), np.zeros((3, 2)), np.zeros((1,)), np.zeros((2, 3)).view(Sub),
             np.zeros((2, 3)).T, 1, 2, 1.0, True, np.float32(1), np.int64(1), np.bool_(True), np.float64(1),
-            f1, f2, f3, f4, f5, f6, f7, f8, f9, f10, f11, f12, f13, (lambda shape: 0), (lambda shape, name=None: 0), CallA(), CallA(), CallB(), int, np.zeros, len]
+            f1, f2, f3, f4, f5, f6, f7, f8, f9, f10, f11, f12, f13, f14, f15, f16, (lambda shape: 0), (lambda shape, name=None: 0), CallA(), CallA(), CallB(), int, np.zeros, len]
     stub = __import__("types").SimpleNamespace(is_supported_tensor=lambda x: isinstance(x, Foreign), get_shape=lambda x: tuple(x.shape))
     return pool, stub
 
@@ -410,8 +413,9 @@ def placeholder_correspondence(ctx):
             except ValueError:
                 sig = inspect.signature(lambda shape: None)
             for nme, prm in sig.parameters.items():
-                d = ident(defaults_seen, prm.default, lambda a, b: a is b or (type(a) is not type and a == b))
-                an = ident(defaults_seen, prm.annotation, lambda a, b: a is b or (type(a) is not type and a == b))
+                # defaults and annotations are compared as frozen values: structurally, numbers together with their type
+                d = ident(defaults_seen, prm.default, lambda a, b: a is b or (type(a) is type(b) and type(a) is not type and repr(a) == repr(b)))
+                an = ident(defaults_seen, prm.annotation, lambda a, b: a is b or (type(a) is type(b) and type(a) is not type and repr(a) == repr(b)))
                 params.append(f"{nme}.{int(prm.kind)}.{d}.{an}")
             params.sort()       # a dict of parameters compares without regard to order; einx only tests membership and kind
         return [kind, shape, ident(types_seen, type(x), lambda a, b: a is b), params]
@@ -421,7 +425,11 @@ def placeholder_correspondence(ctx):
     outs = m.batch([common.sx(["tracerkey_eq", [margs[i], margs[j]]]) for i, j in pairs])
     n_eq = 0
     for (i, j), o in zip(pairs, outs):
-        real = bool(phs[i] == phs[j])
+        try:
+            real = bool(phs[i] == phs[j])
+        except Exception as e:        # comparing two keys must not fail (it happens on every cached call)
+            ctx.report({"kind": "placeholder_comparison_raises", "exc": type(e).__name__}, {"args": [repr(pool[i])[:80], repr(pool[j])[:80]], "message": str(e)[:200]})
+            continue
         n_eq += real
         cls = [type(phs[i]).__name__ == "ConvertibleTensor", type(phs[j]).__name__ == "ConvertibleTensor"]
         if o == "none" or o[0] not in ("T", "F"):
